@@ -182,6 +182,16 @@ def shrink_make_case(mod, case, sig, budget=150):
     return best
 
 
+def _die_with_parent():
+    """The fuzz process must not outlive the worker that started it (watchdog kill): PR_SET_PDEATHSIG."""
+    try:
+        import ctypes
+        import signal
+        ctypes.CDLL('libc.so.6', use_errno=True).prctl(1, signal.SIGKILL)
+    except Exception:  # noqa: BLE001
+        pass
+
+
 def fuzz_phase(modname, runs_total, name='coverage-guided', decoder='make'):
     """Custom phase: one atheris process per shard (fresh corpus directory; odd shards get the seed inputs).
     libFuzzer's -seed pins a campaign only approximately; the reproducible unit is the saved case."""
@@ -206,7 +216,7 @@ def fuzz_phase(modname, runs_total, name='coverage-guided', decoder='make'):
                '-max_len=%d' % MAX_LEN, '-len_control=0', '-use_value_profile=1', '-timeout=300', '-rss_limit_mb=4096', '-print_final_stats=1', corpus]
         try:
             with open(log, 'wb') as lf:
-                proc = subprocess.run(cmd, stdout=lf, stderr=lf, env=env, cwd=runner.ROOT, timeout=6 * 3600)
+                proc = subprocess.run(cmd, stdout=lf, stderr=lf, env=env, cwd=runner.ROOT, timeout=6 * 3600, preexec_fn=_die_with_parent)
             tail = open(log, 'rb').read()[-1500:].decode('utf-8', 'replace')
             if b'atheris-unavailable' in open(log, 'rb').read()[:4000]:
                 stats.labels['atheris-unavailable'] += 1
